@@ -11,6 +11,7 @@ package relay
 
 import (
 	"context"
+	"encoding/binary"
 	"errors"
 	"fmt"
 	"io"
@@ -59,6 +60,7 @@ type vfC11End struct {
 	nClose    int
 	nReset    int
 	failWrite bool
+	lost      []byte // what this end tried to write while failWrite was set (bytes lost on the wire)
 }
 
 var errVfC11Write = errors.New("vf: scripted write failure")
@@ -108,7 +110,13 @@ func (e *vfC11End) Write(b []byte) (int, error) {
 		return 0, errors.New("vf: write on a stream closed for writing")
 	}
 	if e.failWrite {
-		return 0, errVfC11Write
+		// the bytes are lost on the wire; the writer learns of it once a whole length-delimited message has
+		// gone (the delimited writer sends the length first: failing that write would hide the message)
+		e.lost = append(e.lost, b...)
+		if n, k := binary.Uvarint(e.lost); k > 0 && uint64(len(e.lost)-k) >= n {
+			return 0, errVfC11Write
+		}
+		return len(b), nil
 	}
 	if !p.rcl[1-e.i] { // the other side stopped reading: the bytes are dropped
 		p.buf[1-e.i] = append(p.buf[1-e.i], b...)
